@@ -1059,7 +1059,12 @@ class SVG:
         self._update_etree()
 
         for el in self.xpath("//processing-instruction()"):
-            el.getparent().remove(el)
+            parent = el.getparent()
+            if parent is None:
+                # a sibling of the root element (e.g. <?xml-stylesheet?> in the prolog):
+                # not part of the tree that is converted and serialised
+                continue
+            parent.remove(el)
 
         return self
 
